@@ -1,12 +1,458 @@
-import SupervisorModel.Model.Rotate
+import SupervisorModel.Lemmas.Rotate
+/-
+  C19 — rotating logs keep the newest output within the configured bounds.
+  Property theorems only; the model is `Sv.Rotate` (Model/Rotate.lean), whose comparisons, loop
+  bounds, name-index arithmetic, errno tests and open modes are regenerated from
+  supervisor/loggers.py on every run (`Sv.Gen.Rotate`).
+
+  Vocabulary: `run c ops` is the handler state after the constructor in an empty directory
+  followed by `ops`; `(run c ops).dir.get n` is the file at name index n (0 = the configured
+  path, n = "<path>.n"); `written ops` is everything handed to emit, in order;
+  `chain g N` = content of .N ++ … ++ .1 ++ the log.
+-/
 set_option linter.unusedSimpArgs false
 namespace Sv.Props.C19
 open Sv Sv.Rotate Sv.Gen.Rotate
 
-theorem doRollover_maxbytes0 (c : Cfg) (s : S) (h : c.maxBytes ≤ 0) : doRollover c s = s := by
-  unfold doRollover okThen
-  split
-  · rfl
-  · simp [doRollover_g0, h]
+/-- "a log with maxbytes > 0 and backups = N" as handle_file builds it -/
+structure Rotating (c : Cfg) : Prop where
+  rot : c.rotating = true
+  pos : 0 < c.maxBytes
+  nonneg : 0 ≤ c.backupCount
+
+/-- operations of the handler itself (no interference from outside) -/
+def own : Op → Bool
+  | .extRemove _ => false
+  | .extReplace _ _ => false
+  | _ => true
+
+def writeOrReopen : Op → Bool
+  | .write _ => true
+  | .reopen => true
+  | _ => false
+
+theorem invB_runFrom (c : Cfg) (hc : Rotating c) (ops : List Op) :
+    ∀ s, InvB c s → (∀ op ∈ ops, own op = true) → InvB c (runFrom c s ops) := by
+  induction ops with
+  | nil => intro s I _; exact I
+  | cons op r ih =>
+    intro s I h
+    have hr : ∀ o ∈ r, own o = true := fun o ho => h o (List.mem_cons_of_mem _ ho)
+    have h0 := h op (List.mem_cons_self ..)
+    simp only [runFrom, List.foldl_cons]
+    apply ih _ _ hr
+    cases op with
+    | write b => exact InvB_write c hc.rot hc.pos hc.nonneg s I b
+    | clear => exact InvB_clear c hc.pos s I
+    | reopen => exact InvB_reopen c s I
+    | extRemove n => simp [own] at h0
+    | extReplace n d => simp [own] at h0
+
+/-- the invariant of every history of writes, clears and reopens -/
+theorem invB_run (c : Cfg) (hc : Rotating c) (ops : List Op) (h : ∀ op ∈ ops, own op = true) :
+    InvB c (run c ops) :=
+  invB_runFrom c hc ops _ (InvB_init c hc.pos hc.nonneg) h
+
+/-- **files_bounded / no holes** (writes, clears, reopens): the files present are the log and
+    backups .1 … .k for some k ≤ N, nothing else. -/
+theorem files_bounded_own (c : Cfg) (hc : Rotating c) (ops : List Op) (h : ∀ op ∈ ops, own op = true) :
+    ((run c ops).dir.get 0).isSome = true ∧
+    (∀ n, ((run c ops).dir.get n).isSome = true → 0 ≤ n ∧ n ≤ c.backupCount) ∧
+    (∀ n, 0 ≤ n → ((run c ops).dir.get (n + 1)).isSome = true → ((run c ops).dir.get n).isSome = true) := by
+  have I := invB_run c hc ops h
+  obtain ⟨f, hf, _⟩ := I.live
+  exact ⟨by rw [hf]; rfl, I.bounded, I.contig⟩
+
+/-- **live_short**: after every completed operation the live log is shorter than maxbytes. -/
+theorem live_short (c : Cfg) (hc : Rotating c) (ops : List Op) (h : ∀ op ∈ ops, own op = true) :
+    ∃ f, (run c ops).dir.get 0 = some f ∧ (f.data.length : Int) < c.maxBytes :=
+  (invB_run c hc ops h).live
+
+/-- **backups_full**: every backup is at least maxbytes long. -/
+theorem backups_full (c : Cfg) (hc : Rotating c) (ops : List Op) (h : ∀ op ∈ ops, own op = true)
+    (n : Int) (f : File) (hn : 1 ≤ n) (hf : (run c ops).dir.get n = some f) :
+    c.maxBytes ≤ (f.data.length : Int) :=
+  (invB_run c hc ops h).full n f hn hf
+
+/-- no handler operation raises, and the handler is always bound to the configured path -/
+theorem no_exception_own (c : Cfg) (hc : Rotating c) (ops : List Op) (h : ∀ op ∈ ops, own op = true) :
+    (run c ops).err = none ∧ (run c ops).stream = .attached 0 :=
+  ⟨(invB_run c hc ops h).ok, (invB_run c hc ops h).att⟩
+
+theorem suffix_from (c : Cfg) (hc : Rotating c) (ops : List Op) :
+    ∀ s, InvB c s → (∀ op ∈ ops, writeOrReopen op = true) →
+      ∃ dropped : List Bytes,
+        chain s.dir.get c.backupCount.toNat ++ written ops
+          = dropped.flatten ++ chain (runFrom c s ops).dir.get c.backupCount.toNat ∧
+        ∀ x ∈ dropped, c.maxBytes ≤ (x.length : Int) := by
+  induction ops with
+  | nil => intro s _ _; exact ⟨[], by simp [written, runFrom], by simp⟩
+  | cons op r ih =>
+    intro s I h
+    have hr : ∀ o ∈ r, writeOrReopen o = true := fun o ho => h o (List.mem_cons_of_mem _ ho)
+    have h0 := h op (List.mem_cons_self ..)
+    simp only [runFrom, List.foldl_cons]
+    cases op with
+    | write b =>
+      obtain ⟨d1, e1, f1⟩ := chain_write c hc.rot hc.pos hc.nonneg s I b
+      obtain ⟨d2, e2, f2⟩ := ih _ (InvB_write c hc.rot hc.pos hc.nonneg s I b) hr
+      refine ⟨d1 ++ d2, ?_, ?_⟩
+      · simp only [written, step, List.flatten_append, List.append_assoc]
+        rw [← List.append_assoc, e1, List.append_assoc]
+        simp only [runFrom, step] at e2
+        rw [e2]
+      · intro x hx
+        rcases List.mem_append.mp hx with hx | hx
+        · exact f1 x hx
+        · exact f2 x hx
+    | reopen =>
+      obtain ⟨d2, e2, f2⟩ := ih _ (InvB_reopen c s I) hr
+      refine ⟨d2, ?_, f2⟩
+      simp only [written, step]
+      simp only [runFrom, step] at e2
+      rw [← e2]
+      congr 1
+      apply chain_congr
+      intro n
+      obtain ⟨_, _, _, g⟩ := fhReopen_spec c s I.ok
+      obtain ⟨f, hf, _⟩ := I.live
+      rw [g n]; simp [hf]
+    | clear => simp [writeOrReopen] at h0
+    | extRemove n => simp [writeOrReopen] at h0
+    | extReplace n d => simp [writeOrReopen] at h0
+
+/-- **suffix_no_gap**: after any sequence of writes (and reopens), `.N ++ … ++ .1 ++ log` is a
+    suffix of everything ever written, and what is missing in front is a concatenation of whole
+    files, each of which had reached maxbytes (only whole oldest files are dropped). -/
+theorem suffix_no_gap (c : Cfg) (hc : Rotating c) (ops : List Op)
+    (h : ∀ op ∈ ops, writeOrReopen op = true) :
+    ∃ dropped : List Bytes,
+      written ops = dropped.flatten ++ chain (run c ops).dir.get c.backupCount.toNat ∧
+      ∀ x ∈ dropped, c.maxBytes ≤ (x.length : Int) := by
+  obtain ⟨d, e, f⟩ := suffix_from c hc ops (init c) (InvB_init c hc.pos hc.nonneg) h
+  refine ⟨d, ?_, f⟩
+  have hi : ∀ n, content (init c).dir.get n = [] := by
+    intro n
+    by_cases hn : n = 0 <;> simp [content, init, openFile, fexists, modeTruncates_false, hn]
+  have h0 : ∀ k, chain (init c).dir.get k = [] := by
+    intro k
+    induction k with
+    | zero => simp [chain, hi]
+    | succ k ih => simp [chain, ih, hi]
+  rw [h0] at e
+  simpa [run] using e
+
+/-! ### every history, including files removed or replaced behind the handler's back -/
+
+structure InvA (c : Cfg) (s : S) : Prop where
+  wf : WF s
+  bounded : ∀ n, (s.dir.get n).isSome = true → 0 ≤ n ∧ n ≤ c.backupCount
+
+/-- an external actor that only creates files under the names the handler itself uses -/
+def extWithin (N : Int) : Op → Prop
+  | .extReplace n _ => 0 ≤ n ∧ n ≤ N
+  | _ => True
+
+theorem invA_step (c : Cfg) (hc : Rotating c) (s : S) (I : InvA c s) (op : Op)
+    (h : extWithin c.backupCount op) : InvA c (step c s op) := by
+  obtain ⟨wf, bd⟩ := I
+  cases op with
+  | write b =>
+    simp only [step]
+    rcases wf.open_ with ⟨ha, hp⟩ | ⟨f, hd⟩
+    · cases h0 : s.dir.get 0 with
+      | none => rw [h0] at hp; simp at hp
+      | some f =>
+        obtain ⟨e, st, _, g⟩ := emit_attached_gen c hc.rot hc.pos s wf.ok ha f h0 b
+        refine ⟨⟨e, Or.inl ⟨st, ?_⟩⟩, ?_⟩
+        · rw [g 0]; split <;> simp [rollSpec]
+        · intro n
+          rw [g n]
+          split
+          · by_cases hn : n = 0
+            · subst hn; intro _; exact ⟨by omega, hc.nonneg⟩
+            · simpa [hn] using bd n
+          · apply rollSpec_bounded _ hc.nonneg
+            intro m
+            by_cases hm : m = 0
+            · subst hm; intro _; exact ⟨by omega, hc.nonneg⟩
+            · simpa [hm] using bd m
+    · obtain ⟨e, _, g⟩ := emit_detached_gen c hc.rot hc.pos s wf.ok f hd b
+      by_cases hl : ((f.data ++ b).length : Int) < c.maxBytes
+      · rw [if_pos hl] at g
+        refine ⟨⟨e, Or.inr ⟨_, g.1⟩⟩, ?_⟩
+        intro n; rw [g.2 n]; exact bd n
+      · rw [if_neg hl] at g
+        refine ⟨⟨e, Or.inl ⟨g.1, ?_⟩⟩, ?_⟩
+        · rw [g.2 0]; simp [rollSpec]
+        · intro n; rw [g.2 n]
+          exact rollSpec_bounded _ hc.nonneg _ _ bd n
+  | clear =>
+    obtain ⟨e, st, _, g⟩ := clear_spec c s wf.ok
+    show InvA c (fhReopen c (fhRemove s))
+    refine ⟨⟨e, Or.inl ⟨st, by rw [g 0]; simp⟩⟩, ?_⟩
+    intro n; rw [g n]
+    by_cases hn : n = 0
+    · subst hn; intro _; exact ⟨by omega, hc.nonneg⟩
+    · simpa [hn] using bd n
+  | reopen =>
+    obtain ⟨e, st, _, g⟩ := fhReopen_spec c s wf.ok
+    show InvA c (fhReopen c s)
+    refine ⟨⟨e, Or.inl ⟨st, ?_⟩⟩, ?_⟩
+    · rw [g 0]; cases h0 : s.dir.get 0 <;> simp
+    · intro n; rw [g n]
+      by_cases hn : n = 0
+      · subst hn; intro _; exact ⟨by omega, hc.nonneg⟩
+      · simpa [hn] using bd n
+  | extRemove n =>
+    obtain ⟨ws, e, _, hd, hs⟩ := ext_spec n s wf (fun d => dirRemove d n) (extRemove n) rfl
+    refine ⟨⟨e, ?_⟩, ?_⟩
+    · rcases ws with ha | hf
+      · obtain ⟨ha0, hn⟩ := hs ha
+        rcases wf.open_ with ⟨_, hp⟩ | ⟨f, hf⟩
+        · refine Or.inl ⟨ha, ?_⟩
+          simp only [step, hd, get_dirRemove]
+          have : ¬ (0 : Int) = n := fun h => hn h.symm
+          simpa [this] using hp
+        · rw [hf] at ha0; simp at ha0
+      · exact Or.inr hf
+    · intro m
+      simp only [step, hd, get_dirRemove]
+      by_cases hm : m = n
+      · simp [hm]
+      · simpa [hm] using bd m
+  | extReplace n d =>
+    obtain ⟨ws, e, _, hd, hs⟩ := ext_spec n s wf (fun dd => dirSet dd n ⟨0, d⟩) (extReplace n d) rfl
+    refine ⟨⟨e, ?_⟩, ?_⟩
+    · rcases ws with ha | hf
+      · obtain ⟨ha0, hn⟩ := hs ha
+        rcases wf.open_ with ⟨_, hp⟩ | ⟨f, hf⟩
+        · refine Or.inl ⟨ha, ?_⟩
+          simp only [step, hd, get_dirSet]
+          have : ¬ (0 : Int) = n := fun h => hn h.symm
+          simpa [this] using hp
+        · rw [hf] at ha0; simp at ha0
+      · exact Or.inr hf
+    · intro m
+      simp only [step, hd, get_dirSet]
+      by_cases hm : m = n
+      · subst hm; intro _; exact h
+      · simpa [hm] using bd m
+
+theorem invA_init (c : Cfg) (hc : Rotating c) : InvA c (init c) := by
+  have I := InvB_init c hc.pos hc.nonneg
+  obtain ⟨f, hf, _⟩ := I.live
+  exact ⟨⟨I.ok, Or.inl ⟨I.att, by rw [hf]; rfl⟩⟩, I.bounded⟩
+
+theorem invA_runFrom (c : Cfg) (hc : Rotating c) (ops : List Op) :
+    ∀ s, InvA c s → (∀ op ∈ ops, extWithin c.backupCount op) → InvA c (runFrom c s ops) := by
+  induction ops with
+  | nil => intro s I _; exact I
+  | cons op r ih =>
+    intro s I h
+    simp only [runFrom, List.foldl_cons]
+    exact ih _ (invA_step c hc s I op (h op (List.mem_cons_self ..)))
+      (fun o ho => h o (List.mem_cons_of_mem _ ho))
+
+/-- **files_bounded**: in every history — writes of any size, clears, reopens, files removed
+    or replaced from outside (under names the handler uses) — the only files present are the
+    log and backups .1 … .N; and no handler operation ever raises. -/
+theorem files_bounded (c : Cfg) (hc : Rotating c) (ops : List Op)
+    (h : ∀ op ∈ ops, extWithin c.backupCount op) :
+    (run c ops).err = none ∧
+    ∀ n, ((run c ops).dir.get n).isSome = true → 0 ≤ n ∧ n ≤ c.backupCount := by
+  have I := invA_runFrom c hc ops _ (invA_init c hc) h
+  exact ⟨I.wf.ok, I.bounded⟩
+
+/-! ### maxbytes = 0, backups = 0, clear / reopen -/
+
+/-- the state of a log that is never rotated: one file holding `W` -/
+structure InvZ (W : Bytes) (s : S) : Prop where
+  ok : s.err = none
+  att : s.stream = .attached 0
+  base : ∃ f, s.dir.get 0 = some f ∧ f.data = W
+  only : ∀ n, n ≠ 0 → s.dir.get n = none
+
+theorem emit_off (c : Cfg) (hoff : c.rotating = false ∨ c.maxBytes ≤ 0) (s : S) (h : s.err = none)
+    (hs : s.stream = .attached 0) (f : File) (hf : s.dir.get 0 = some f) (b : Bytes) :
+    emit c b s = ⟨dirSet s.dir 0 ⟨f.start, f.data ++ b⟩, .attached 0, s.hist + b.length, none⟩ := by
+  unfold emit
+  rw [okThen_ok _ _ h]
+  have hs1 : ({ streamWrite b s with hist := s.hist + b.length } : S) =
+      ⟨dirSet s.dir 0 ⟨f.start, f.data ++ b⟩, .attached 0, s.hist + b.length, none⟩ := by
+    simp [streamWrite, hs, hf, h]
+  rw [hs1]
+  rcases hoff with hr | hm
+  · simp [hr]
+  · rw [doRollover_off c _ hm]; simp
+
+theorem invZ_runFrom (c : Cfg) (hoff : c.rotating = false ∨ c.maxBytes ≤ 0) (ops : List Op) :
+    ∀ s W, InvZ W s → (∀ op ∈ ops, writeOrReopen op = true) → InvZ (W ++ written ops) (runFrom c s ops) := by
+  induction ops with
+  | nil => intro s W I _; simpa [written, runFrom] using I
+  | cons op r ih =>
+    intro s W I h
+    have hr : ∀ o ∈ r, writeOrReopen o = true := fun o ho => h o (List.mem_cons_of_mem _ ho)
+    have h0 := h op (List.mem_cons_self ..)
+    obtain ⟨f, hf, hW⟩ := I.base
+    simp only [runFrom, List.foldl_cons]
+    cases op with
+    | write b =>
+      have := ih (step c s (.write b)) (W ++ b) ?_ hr
+      · simpa [written, runFrom, List.append_assoc] using this
+      · simp only [step]
+        rw [emit_off c hoff s I.ok I.att f hf b]
+        refine ⟨rfl, rfl, ⟨⟨f.start, f.data ++ b⟩, by simp, by simp [hW]⟩, ?_⟩
+        intro n hn
+        simpa [hn] using I.only n hn
+    | reopen =>
+      have := ih (step c s .reopen) W ?_ hr
+      · simpa [written, runFrom] using this
+      · obtain ⟨e, st, _, g⟩ := fhReopen_spec c s I.ok
+        show InvZ W (fhReopen c s)
+        refine ⟨e, st, ⟨f, by rw [g 0]; simp [hf], hW⟩, ?_⟩
+        intro n hn
+        rw [g n]; simpa [hn] using I.only n hn
+    | clear => simp [writeOrReopen] at h0
+    | extRemove n => simp [writeOrReopen] at h0
+    | extReplace n d => simp [writeOrReopen] at h0
+
+/-- **maxbytes0_never**: with maxbytes = 0 (handle_file then builds a plain FileHandler; a
+    RotatingFileHandler with maxBytes ≤ 0 behaves the same) nothing is ever rotated or dropped:
+    the log holds everything written and no other file exists. -/
+theorem maxbytes0_never (c : Cfg) (hoff : c.rotating = false ∨ c.maxBytes ≤ 0) (ops : List Op)
+    (h : ∀ op ∈ ops, writeOrReopen op = true) :
+    (run c ops).err = none ∧
+    (∃ f, (run c ops).dir.get 0 = some f ∧ f.data = written ops) ∧
+    ∀ n, n ≠ 0 → (run c ops).dir.get n = none := by
+  have I0 : InvZ [] (init c) := by
+    refine ⟨by simp [init, openFile, fexists], by simp [init, openFile, fexists],
+      ⟨⟨0, []⟩, by simp [init, openFile, fexists], rfl⟩, ?_⟩
+    intro n hn
+    simp [init, openFile, fexists, hn]
+  have I := invZ_runFrom c hoff ops _ _ I0 h
+  simp only [List.nil_append] at I
+  exact ⟨I.ok, I.base, I.only⟩
+
+/-- what one write does when the handler is bound to the configured path (any directory
+    contents, also after external interference): it appends to the log, or — when that makes
+    the log reach maxbytes — the log with the new bytes becomes `.1` (if backups are kept) and
+    the log at the configured path is empty.  The handler stays bound to the configured path. -/
+theorem write_at_path (c : Cfg) (hc : Rotating c) (s : S) (h : s.err = none)
+    (hs : s.stream = .attached 0) (f : File) (hf : s.dir.get 0 = some f) (b : Bytes) :
+    (step c s (.write b)).err = none ∧ (step c s (.write b)).stream = .attached 0 ∧
+    (((f.data ++ b).length : Int) < c.maxBytes →
+        content (step c s (.write b)).dir.get 0 = f.data ++ b ∧
+        ∀ n, n ≠ 0 → (step c s (.write b)).dir.get n = s.dir.get n) ∧
+    (c.maxBytes ≤ ((f.data ++ b).length : Int) →
+        (step c s (.write b)).dir.get 0 = some ⟨s.hist + b.length, []⟩ ∧
+        (0 < c.backupCount → content (step c s (.write b)).dir.get 1 = f.data ++ b)) := by
+  obtain ⟨e, st, _, g⟩ := emit_attached_gen c hc.rot hc.pos s h hs f hf b
+  refine ⟨e, st, ?_, ?_⟩
+  · intro hl
+    simp only [step, content, g, if_pos hl]
+    refine ⟨by simp, ?_⟩
+    intro n hn; simp [hn]
+  · intro hl
+    have hl' : ¬ ((f.data ++ b).length : Int) < c.maxBytes := by omega
+    simp only [step, content, g, if_neg hl']
+    refine ⟨by simp [rollSpec], ?_⟩
+    intro hN
+    simp [rollSpec, hN]
+
+/-- **backups0_truncates**: with backups = 0 the log is emptied when it reaches maxbytes (and
+    no backup is ever created): after a write the log holds old ++ new if that is shorter than
+    maxbytes, and nothing otherwise. -/
+theorem backups0_truncates (c : Cfg) (hc : Rotating c) (h0 : c.backupCount = 0) (ops : List Op)
+    (h : ∀ op ∈ ops, own op = true) (b : Bytes) :
+    ∃ f, (run c ops).dir.get 0 = some f ∧
+      content (run c (ops ++ [.write b])).dir.get 0
+        = (if ((f.data ++ b).length : Int) < c.maxBytes then f.data ++ b else []) ∧
+      ∀ n, n ≠ 0 → (run c (ops ++ [.write b])).dir.get n = none := by
+  have I := invB_run c hc ops h
+  obtain ⟨f, hf, _⟩ := I.live
+  refine ⟨f, hf, ?_⟩
+  have hrun : run c (ops ++ [.write b]) = step c (run c ops) (.write b) := by
+    simp [run, runFrom, List.foldl_append]
+  obtain ⟨_, _, hlt, hge⟩ := write_at_path c hc (run c ops) I.ok I.att f hf b
+  have I' : InvB c (run c (ops ++ [.write b])) := by
+    apply invB_run c hc
+    intro op hop
+    rcases List.mem_append.mp hop with hop | hop
+    · exact h op hop
+    · simp only [List.mem_singleton] at hop; subst hop; rfl
+  refine ⟨?_, ?_⟩
+  · rw [hrun]
+    by_cases hl : ((f.data ++ b).length : Int) < c.maxBytes
+    · rw [if_pos hl]; exact (hlt hl).1
+    · rw [if_neg hl]
+      have := (hge (by omega)).1
+      simp [content, this]
+  · intro n hn
+    cases hg : (run c (ops ++ [.write b])).dir.get n with
+    | none => rfl
+    | some x =>
+      have := I'.bounded n (by rw [hg]; rfl)
+      omega
+
+/-- **clear_reopen_safe** (1): whatever happened before — including the log having been removed
+    or replaced from outside — after `clear` (clearProcessLogs) or `reopen` (SIGUSR2, clearLog)
+    the handler has not raised, is bound to the file at the configured path, and that file
+    exists; `clear` leaves it empty and touches no backup, `reopen` changes no existing file. -/
+theorem clear_reopen_safe (c : Cfg) (s : S) (h : s.err = none) :
+    ((step c s .clear).err = none ∧ (step c s .clear).stream = .attached 0 ∧
+      (step c s .clear).dir.get 0 = some ⟨s.hist, []⟩ ∧
+      ∀ n, n ≠ 0 → (step c s .clear).dir.get n = s.dir.get n) ∧
+    ((step c s .reopen).err = none ∧ (step c s .reopen).stream = .attached 0 ∧
+      ((step c s .reopen).dir.get 0).isSome = true ∧
+      ∀ n, (s.dir.get n).isSome = true → (step c s .reopen).dir.get n = s.dir.get n) := by
+  obtain ⟨e1, s1, _, g1⟩ := clear_spec c s h
+  obtain ⟨e2, s2, _, g2⟩ := fhReopen_spec c s h
+  refine ⟨⟨e1, s1, by show (fhReopen c (fhRemove s)).dir.get 0 = _; rw [g1]; simp, ?_⟩, ⟨e2, s2, ?_, ?_⟩⟩
+  · intro n hn
+    show (fhReopen c (fhRemove s)).dir.get n = _
+    rw [g1]; simp [hn]
+  · show ((fhReopen c s).dir.get 0).isSome = true
+    rw [g2]; cases h0 : s.dir.get 0 <;> simp
+  · intro n hn
+    show (fhReopen c s).dir.get n = _
+    rw [g2]
+    by_cases h0 : n = 0
+    · subst h0; simp [hn]
+    · simp [h0]
+
+/-- **clear_reopen_safe** (2): output written after a clear or reopen is never lost, however
+    the directory looked before: for every later sequence of writes and reopens the files
+    `.N … .1, log` end with everything written since, up to whole oldest files that had reached
+    maxbytes.  (Stated from any state satisfying the own-operations invariant, which `clear` and
+    `reopen` re-establish — `InvB_clear`, `InvB_reopen`.) -/
+theorem nothing_lost_after (c : Cfg) (hc : Rotating c) (s : S) (I : InvB c s) (ops : List Op)
+    (h : ∀ op ∈ ops, writeOrReopen op = true) :
+    ∃ dropped : List Bytes,
+      chain s.dir.get c.backupCount.toNat ++ written ops
+        = dropped.flatten ++ chain (runFrom c s ops).dir.get c.backupCount.toNat ∧
+      ∀ x ∈ dropped, c.maxBytes ≤ (x.length : Int) :=
+  suffix_from c hc ops s I h
+
+/-- the contrast that makes `clear_reopen_safe` non-trivial: when the log is removed from
+    outside and the handler is *not* told to reopen, later output goes to a file nobody can
+    see and is gone at the next rollover. -/
+theorem lost_without_reopen :
+    let s := run ⟨true, 4, 1⟩ [.write [1], .extRemove 0, .write [2, 3], .write [4, 5]]
+    s.err = none ∧ s.dir.get 1 = none ∧ (s.dir.get 0).map (·.data) = some [] := by
+  decide
+
+-- non-vacuity of the hypotheses
+example : ∀ op ∈ [Op.write [1], .clear, .reopen], own op = true := by decide
+example : ∀ op ∈ [Op.write [1], .reopen], writeOrReopen op = true := by decide
+example : ∀ op ∈ [Op.write [1], .extRemove 0, .extReplace 2 [7]], extWithin 2 op := by
+  intro op h; simp at h; rcases h with h | h | h <;> subst h <;> simp [extWithin]
+example : InvB ⟨true, 4, 2⟩ (init ⟨true, 4, 2⟩) := InvB_init _ (by decide) (by decide)
+-- non-vacuity: a history with three rollovers, backups = 1, maxbytes = 3
+example : Rotating ⟨true, 3, 1⟩ := ⟨rfl, by decide, by decide⟩
+example : ((run ⟨true, 3, 1⟩ [.write [1,2], .write [3], .reopen, .write [4,5,6,7], .write [8]]).dir.get 1).map (·.data)
+    = some [4,5,6,7] := by decide
+example : ((run ⟨true, 3, 1⟩ [.write [1,2], .write [3], .reopen, .write [4,5,6,7], .write [8]]).dir.get 0).map (·.data)
+    = some [8] := by decide
 
 end Sv.Props.C19
